@@ -9,6 +9,7 @@ T=$(mktemp -d)
 trap 'rm -rf $T' EXIT
 /verif/bin/verif-instr -src /repo/service -dst $T/service -meta $T/service.json >/dev/null
 /verif/bin/verif-instr -src /repo/attachment -dst $T/attachment -os -meta $T/attachment.json -probebase 1000 >/dev/null
+/verif/bin/verif-instr -src /repo/protocol/model -dst $T/model -hookmethods ReplyBody >/dev/null
 python3 - $T <<'PY'
 import json,os,sys
 t=sys.argv[1]
@@ -16,6 +17,8 @@ rep={}
 for pkg in ("service","attachment"):
     for f in os.listdir(os.path.join(t,pkg)):
         rep[f"/verif/sim/gen/{pkg}/{f}"]=os.path.join(t,pkg,f)
+for f in os.listdir(os.path.join(t,"model")):
+    rep[f"/repo/protocol/model/{f}"]=os.path.join(t,"model",f)
 json.dump({"Replace":rep},open(os.path.join(t,"overlay.json"),"w"))
 PY
 go test -c -vet=off -overlay $T/overlay.json -o /verif/bin/sim.det ./harness
